@@ -501,6 +501,14 @@ func hashes(prop, tier, runsS string) int {
 		f, _ := os.Create(pf)
 		pprof.StartCPUProfile(f)
 		defer pprof.StopCPUProfile()
+		if secs := envInt("VERIF_PROFILE_SECONDS", 0); secs > 0 { // profile a run that takes too long to wait for
+			go func() {
+				time.Sleep(time.Duration(secs) * time.Second)
+				pprof.StopCPUProfile()
+				f.Close()
+				os.Exit(0)
+			}()
+		}
 	}
 	runShardLoop(ctx, meta, runs)
 	idx := make([]int, 0, len(ctx.RunHashes))
